@@ -181,6 +181,13 @@ impl Metrics {
     #[verifier::external_body] pub fn increment_users(&self, n: u32) { unimplemented!() }
     #[verifier::external_body] pub fn decrement_users(&self, n: u32) { unimplemented!() }
 }
+impl System {
+    // repair F70: disconnects the clients of the user (units client_disconnect / user_disconnect); writes the client manager only
+    #[verifier::external_body]
+    pub fn delete_clients_for_user(&mut self, user_id: u32)
+        ensures *final(self) == (System { client_manager: final(self).client_manager, ..*old(self) }),
+    { unimplemented!() }
+}
 // the client manager is verified in unit client_memberships; opaque here
 #[verifier::external_body]
 pub struct ClientManager { x: u8 }
